@@ -139,7 +139,9 @@ func genWorld(r *simkit.RNG, sc *Scenario, k *gknobs) {
 		if len(parts) > 1 {
 			p.Query = parts[1]
 		}
-		if strings.HasPrefix(p.Base, "git::") || r.Chance(1, 3) {
+		if !strings.HasPrefix(p.Base, "git::") && r.Chance(1, 6) {
+			p.BlankMeta = true
+		} else if strings.HasPrefix(p.Base, "git::") || r.Chance(1, 3) {
 			p.Commit = fmt.Sprintf("%040x", r.U64())
 			if r.Chance(1, 2) {
 				p.Msg = fmt.Sprintf("commit message %d\nsecond line", i)
